@@ -194,10 +194,17 @@ def cell_values(case, paths):
     for f, p in zip(case['files'], paths):
         vals = []
         if f['rows']:
+            # a CSC file without any stored value cannot be opened by the implementation's reader
+            # (finding F2); when the statistics writer itself never opens it (no labelled cell in
+            # it) the run is still valid: its rows are all-zero by construction
+            no_reader = f['encoding'] == 'csc' and not case['M'][f['rows'], :].any()
             with quiet():
-                it = AnnDataRowIterator(h5ad_path=p, row_chunk_size=1)
+                it = None if no_reader else AnnDataRowIterator(h5ad_path=p, row_chunk_size=1)
                 for i in range(len(f['rows'])):
-                    ch = it.get_chunk(i, i + 1)[0]
+                    if no_reader:
+                        ch = np.array(case['M'][[f['rows'][i]], :])
+                    else:
+                        ch = it.get_chunk(i, i + 1)[0]
                     if not isinstance(ch, np.ndarray):
                         ch = ch.toarray()
                     src = case['M'][f['rows'][i], :]
